@@ -448,7 +448,7 @@ mut('c05-unfold-check-after-call', ['C05'], 'unfold_dim validates size/step afte
 mut('c05-matmul-1d-accepted', ['C05'], 'matmul accepts 1-D operands (guard weakened to `and`)', [(F, "if x1.ndim < 2 or x2.ndim < 2:", "if x1.ndim < 2 and x2.ndim < 2:")], rules=['C05.REJECT'])
 mut('c05-flatten-fallback', ['C05'], 'flatten returns the input for start > end instead of raising', [(F, "    if start > end:\n        raise RuntimeError(\"flatten() has invalid args: start_dim cannot come after end_dim\")", "    if start > end:\n        return x")], rules=['C05.REJECT'])
 mut('c05-zeros-drops-dtype', ['C05'], 'zeros() ignores dtype', [(T, "    return Tensor(np.zeros(shape, dtype=default_type__), dtype=dtype, requires_grad=requires_grad, name=name, device=device)", "    return Tensor(np.zeros(shape, dtype=default_type__), requires_grad=requires_grad, name=name, device=device)")], rules=['C05.CTOR'])
-mut('c05-ones-like-loses-dtype', ['C05', 'C10'], 'ones_like builds its data from the shape only', [(T, "    return Tensor(np.ones_like(tensor.data), dtype=dtype,", "    return Tensor(np.ones(tensor.shape), dtype=dtype,")], rules=['C05.CTOR'])
+mut('c05-ones-like-loses-dtype', ['C05'], 'ones_like builds its data from the shape only', [(T, "    return Tensor(np.ones_like(tensor.data), dtype=dtype,", "    return Tensor(np.ones(tensor.shape), dtype=dtype,")], rules=['C05.CTOR'])
 mut('c05-twin-neg-via-F', ['C05'], '__neg__ through F.neg', [(T, "        return self * -1.0", "        return F.neg(self)")], expect='silent')
 mut('c05-twin-sub-mul', ['C05'], '__sub__ written as self + other * -1.0', [(T, "        return self + (-other)", "        return self + other * -1.0")], expect='silent')
 
@@ -470,7 +470,7 @@ mut('c16-col2im-overwrite', ['C16'], 'col2im_v2 overwrites overlapping windows',
 mut('c16-col2im-index-stride-dilation', ['C16'], 'col2im computes its indices with stride and dilation swapped', [(CT, "col_indices = get_im2col_indices((N, C, H, W), kernel_size=kernel_size, dilation=dilation, padding=padding, stride=stride)", "col_indices = get_im2col_indices((N, C, H, W), kernel_size=kernel_size, dilation=stride, padding=padding, stride=dilation)")], rules=['C16.PAIR-INDEX'])
 mut('c16-v2-window-end', ['C16'], 'col2im_v2 window end off by the dilation term', [(CT, "            h_end = i * stride[0] + kernel_size[0] + (dilation[0] - 1) * (kernel_size[0] - 1)\n            h_step = dilation[0]\n            w_start = j * stride[1]", "            h_end = i * stride[0] + kernel_size[0] + (dilation[0] - 1) * kernel_size[0]\n            h_step = dilation[0]\n            w_start = j * stride[1]")], rules=['C16.PAIR-SLICE'])
 mut('c16-v2-column-index', ['C16'], 'im2col_v2 writes window (i, j) into column j*lH + i', [(CT, "output[:, :, i*lW + j] = window.ravel().reshape(output[:, :, i*lW + j].shape)", "output[:, :, j*lH + i] = window.ravel().reshape(output[:, :, j*lH + i].shape)")], rules=['C16.PAIR-SLICE'])
-mut('c16-fast-stride-as-dilation', ['C16', 'C02'], 'col2im_fast hands (dilation, padding, stride) to place_windows', [(CT, "output = place_windows(windows, output_shape, kernel_size, stride, padding, dilation)", "output = place_windows(windows, output_shape, kernel_size, dilation, padding, stride)")], rules=['C16.PAIR-FAST'])
+mut('c16-fast-stride-as-dilation', ['C16'], 'col2im_fast hands (dilation, padding, stride) to place_windows', [(CT, "output = place_windows(windows, output_shape, kernel_size, stride, padding, dilation)", "output = place_windows(windows, output_shape, kernel_size, dilation, padding, stride)")], rules=['C16.PAIR-FAST'])
 mut('c16-crop-asymmetric', ['C16'], 'col2im crops p+1 on the left', [(CT, "        output = output[:, :, padding[0]:H_with_pad-padding[0], padding[1]:W_with_pad-padding[1]]\n\n    out = output if not return_indices", "        output = output[:, :, padding[0]+1:H_with_pad-padding[0]+1, padding[1]:W_with_pad-padding[1]]\n\n    out = output if not return_indices")], rules=['C16.PADCROP'])
 mut('c16-im2col-pad-value-dropped', ['C16'], 'im2col ignores pad_value', [(CT, "        a, ((0, 0), (0, 0)) + tuple((padding[d], padding[d]) for d in range(2)),\n        mode='constant', constant_values=pad_value)\n    \n    if col_indices is None:", "        a, ((0, 0), (0, 0)) + tuple((padding[d], padding[d]) for d in range(2)),\n        mode='constant', constant_values=0)\n    \n    if col_indices is None:")], rules=['C16.PADCROP'])
 mut('c16-layout-wrong-perm', ['C16'], 'im2col_v2 2-D layout uses transpose(1, 0, 2)', [(CT, "        output = output.transpose(1, 2, 0).reshape(kernel_size[0] * kernel_size[1] * C, -1)\n            \n    return output", "        output = output.transpose(1, 0, 2).reshape(kernel_size[0] * kernel_size[1] * C, -1)\n            \n    return output")], rules=['C16.LAYOUT2D'])
@@ -481,7 +481,7 @@ mut('c16-twin-outsize-floordiv', ['C16', 'C06'], 'conv2d output size written wit
 mut('c14-ce-eps (revert of fix)', ['C14'], 'cross entropy composes NLL with log(softmax + eps), not log_softmax', [(K, "    log_softmax = log_softmax_forward(y_pred, 1)\n    log_likelihood = nll_loss_forward(log_softmax, y_true)", "    log_softmax = np.log(softmax_forward(y_pred, 1) + epsilon)\n    log_likelihood = nll_loss_forward(log_softmax, y_true)")], rules=['C14.TREE'])
 mut('c14-addmm-order', ['C14'], 'addmm_forward computes a + c @ b', [(K, "    return a + (b @ c)", "    return a + (c @ b)")], rules=['C14.TREE'])
 mut('c14-neuron-two-outputs', ['C14'], 'Neuron builds a Linear with 2 outputs', [(LY, "super().__init__(in_features, 1, bias=bias)", "super().__init__(in_features, 2, bias=bias)")], rules=['C14.TREE'])
-mut('c14-mean-backward-no-division', ['C14', 'C01'], 'mean_backward forgets to divide by the count', [(K, "    return out_grad / n_samples", "    return out_grad")], rules=['C14.TREE'])
+mut('c14-mean-backward-no-division', ['C14', 'C01'], 'mean_backward forgets to divide by the count', [(K, "    return out_grad / n_samples", "    return out_grad")], rules=['C14.TREE', 'C01.REDUCE'])
 mut('c14-avgpool-uses-max-backward', ['C14', 'C02'], 'avg_pool2d_backward routes the gradient through max_backward', [(K, "    windows_grad = mean_backward(grad, windows.reshape(*windows.shape[:-2], -1).shape, -1, False)\n    windows_grad = windows_grad.reshape(windows.shape)", "    windows_grad = max_backward(grad, windows.reshape(*windows.shape[:-2], -1), -1, False)\n    windows_grad = windows_grad.reshape(windows.shape)")], rules=['C14.TREE', 'C02.POOLPAIR'])
 mut('c14-stack-backward-other-axis', ['C14'], 'stack_backward unbinds along axis 0', [(K, "    return unbind_forward(grad, axis)", "    return unbind_forward(grad, 0)")], rules=['C14.TREE'])
 mut('c14-linear-untransposed', ['C14', 'C02'], 'linear multiplies by W instead of W.T in the bias branch', [(NF, "out_data = cpu_ops.addmm_forward(bias.data, x.data, weight.data.T)", "out_data = cpu_ops.addmm_forward(bias.data, x.data, weight.data)")], rules=['C14.TREE', 'C02.SAVED'])
